@@ -138,7 +138,7 @@ def cpBracket (p0 : CP) (tok0 r1 : Bytes) : Outcome (Option Span × CP) := do
   let p := { p with rest := r }
   if typ == tokRbracket then
     let p := if minOpen || tok == [41] then p.setErr else p
-    match newSpan min false min false with
+    match newSpanAliased min with
     | .panic => .panic
     | .err => .ok (none, p.setErr)
     | .ok sp => .ok (some sp, p)
@@ -462,7 +462,7 @@ theorem cpBracket_okp (p0 : CP) (hs : p0.sys = .maven ∨ p0.sys = .nuget) (tok0
       split
       · exact okp_ok (sres_none hp')
       · split
-        · have hsr := newSpan_spok hmo hmo false false
+        · have hsr := newSpanAliased_spok hmo
           split
           · rename_i heq2; exact (okp_not_panic hsr heq2).elim
           · exact okp_ok (sres_none (by split <;> exact hp'))
